@@ -11,6 +11,13 @@ fn main() {
     println!("cargo:rerun-if-changed=../common/glue.rs.in");
     println!("cargo::rustc-check-cfg=cfg(jgilchrist_tcheran_verif)");
     println!("cargo:rustc-cfg=jgilchrist_tcheran_verif");
+    // the table's slot counter is a public field today; if a change removes it the harness falls back to the fill
+    // indicator instead of failing to compile
+    println!("cargo:rerun-if-changed={repo}/src/engine/transposition_table.rs");
+    println!("cargo::rustc-check-cfg=cfg(verif_tt_occupied)");
+    if std::fs::read_to_string(format!("{repo}/src/engine/transposition_table.rs")).map(|t| t.contains("pub occupied")).unwrap_or(false) {
+        println!("cargo:rustc-cfg=verif_tt_occupied");
+    }
     cc::Build::new()
         .include(format!("{repo}/src/engine/tablebases/fathom/src"))
         .file(format!("{repo}/src/engine/tablebases/fathom/src/tbprobe.c"))
